@@ -473,9 +473,9 @@ def build_cases(run, tier, table):
         cfg = rng.choice([{}, {"literal_enums": True, "docstrings_on_attributes": True}])
         cases.append({"slots": {l: PAYLOADS[c] for l, c in cs_.items()}, "classes": cs_, "meta": meta, "cfg": cfg, "kind": "combo"})
     if not quick:
-        for _ in range(300):
+        for _ in range(300):     # '/' is left out: in a component key it is JSON-pointer structure (the class is named after the last segment), not text
             l = rng.choice(em)
-            s = S.rand_str(rng, [ch for ch in S.HOSTILE if not re.match(r"\w", ch) and ch != "\x00"] + ['"', "'", "\\", "\n", "{", "}"], 6) + " " + MARK
+            s = S.rand_str(rng, [ch for ch in S.HOSTILE if not re.match(r"\w", ch) and ch not in "\x00/"] + ['"', "'", "\\", "\n", "{", "}"], 6) + " " + MARK
             meta, cfg = rng.choice(cfgs_for(l))
             cases.append({"slots": {l: s}, "classes": {l: "random"}, "meta": meta, "cfg": cfg, "kind": "random"})
     return cases
